@@ -238,7 +238,9 @@ spif_mbuff_init_from_fp(spif_mbuff_t self, FILE *fp)
         self->buff = (spif_byteptr_t) MALLOC(self->size);
 
         if (fread(self->buff, file_size, 1, fp) < 1) {
+            /* Nothing usable was read:  leave an empty object, not a length without a buffer. */
             FREE(self->buff);
+            self->len = self->size = 0;
             return FALSE;
         }
     }
@@ -296,7 +298,9 @@ spif_mbuff_init_from_fd(spif_mbuff_t self, int fd)
         self->buff = (spif_byteptr_t) MALLOC(self->size);
 
         if (read(fd, self->buff, file_size) < 1) {
+            /* Nothing usable was read:  leave an empty object, not a length without a buffer. */
             FREE(self->buff);
+            self->len = self->size = 0;
             return FALSE;
         }
     }
